@@ -21,10 +21,14 @@ Record flags := mkflags {
   f_stale : bool;   (* receiver applies a message whose sequence is not above the last one seen *)
   f_drop  : bool;   (* receiver never releases what an earlier checkpoint of the same session reserved *)
   f_bulk  : bool;   (* bulk replay of the backlog sends checkpoints without their action *)
-  f_relall : bool   (* release by address from every pool / first containing pool, ignoring the pool name *)
+  f_relall : bool;  (* release by address from every pool / first containing pool, ignoring the pool name *)
+  f_window : bool   (* bulk sync replays the retained backlog window even when it does not reach back to what the
+                       standby already has (sessions whose last update was evicted are never sent) *)
 }.
-Definition repaired : flags := mkflags false false false false false.
-Definition defective : flags := mkflags true true true true true.
+Definition repaired : flags := mkflags false false false false false false.
+Definition defective : flags := mkflags true true true true true true.
+(* /repo HEAD (43d3a11): no sequence comparison in the receiver, bulk sync always from the backlog window *)
+Definition head : flags := mkflags false true false false false true.
 
 (* ---------- association lists ---------- *)
 Section Assoc.
@@ -474,21 +478,37 @@ Fixpoint iter_n {A} (n : nat) (f : A -> A) (x : A) : A := match n with O => x | 
 
 (* BulkSync: the answer of Range is a VALUE — what the active node does between two pages (the [churn]) cannot change
    it.  Afterwards the in-order stream resumes behind the sequence the bulk sync ended with. *)
+(* bulkSyncFromIterators as repaired (fixes/C11_bulk_snapshot_when_behind.patch): the checkpoints of all live sessions
+   of the SRG, the pages carry the sender's sequence number *)
+Definition snapshot_cps (y : sys) (srg : N) : list checkpoint :=
+  map (fun ks => s2c (snd ks)) (filter (fun ks => N.eqb (s_srg (snd ks)) srg) (y_live y)).
+Definition recv_snapshot (fl : flags) (rc : receiver) (srg seq : N) (cps : list checkpoint) : receiver :=
+  let rc1 := fold_left (recv_update fl) cps rc in
+  if N.ltb 0 seq then mkrecv (aset N.eqb srg seq (rc_last rc1)) (rc_store rc1) (rc_reg rc1) else rc1.
+
 Definition bulk_op (fl : flags) (churn : sys -> sys) (y : sys) (srg : N) (k pagesz : nat) : sys :=
   match aget N.eqb srg (y_sender y) with
-  | Some (_, b) =>
+  | Some (seq, b) =>
       match oldest_seq b, newest_seq b with
       | Ok os, Ok ns =>
           if N.eqb os 0 || N.eqb ns 0 then y else
-          match range fl b (Z.of_N os) (Z.of_N ns) with
-          | Ok l => let (qs, p) := somes l in
-                    if p then mksys (y_sender y) (y_recv y) (y_sent y) (y_next y) (y_live y) (S (y_panics y))
-                    else
-                      let y1 := iter_n (bulk_pages fl qs pagesz * k) churn y in
-                      mksys (y_sender y1) (recv_bulk fl (y_recv y1) srg qs) (y_sent y1)
-                            (aset N.eqb srg (Nat.max (next_of y1 srg) (N.to_nat ns)) (y_next y1)) (y_live y1) (y_panics y1)
-          | _ => mksys (y_sender y) (y_recv y) (y_sent y) (y_next y) (y_live y) (S (y_panics y))
-          end
+          if f_window fl || N.leb os (last_of (y_recv y) srg + 1) then
+            (* the window reaches back to what the standby has: replay it *)
+            match range fl b (Z.of_N os) (Z.of_N ns) with
+            | Ok l => let (qs, p) := somes l in
+                      if p then mksys (y_sender y) (y_recv y) (y_sent y) (y_next y) (y_live y) (S (y_panics y))
+                      else
+                        let y1 := iter_n (bulk_pages fl qs pagesz * k) churn y in
+                        mksys (y_sender y1) (recv_bulk fl (y_recv y1) srg qs) (y_sent y1)
+                              (aset N.eqb srg (Nat.max (next_of y1 srg) (N.to_nat ns)) (y_next y1)) (y_live y1) (y_panics y1)
+            | _ => mksys (y_sender y) (y_recv y) (y_sent y) (y_next y) (y_live y) (S (y_panics y))
+            end
+          else
+            (* the standby is behind the window: full snapshot of the live sessions *)
+            let cps := snapshot_cps y srg in
+            let y1 := iter_n ((length cps / pagesz + 1) * k) churn y in
+            mksys (y_sender y1) (recv_snapshot fl (y_recv y1) srg seq cps) (y_sent y1)
+                  (aset N.eqb srg (Nat.max (next_of y1 srg) (N.to_nat seq)) (y_next y1)) (y_live y1) (y_panics y1)
       | _, _ => mksys (y_sender y) (y_recv y) (y_sent y) (y_next y) (y_live y) (S (y_panics y))
       end
   | None => y
